@@ -707,7 +707,7 @@ update_value:
 	line->data_size = data_size;
 	line->val_size = val_size;
 	if (0 != val_size) { /* Empty value may be NULL: memcpy(..., NULL, 0) is UB. */
-		memcpy(line->val, val, val_size);
+		memmove(line->val, val, val_size); /* val may point into this record (value from ini_val_get()). */
 	}
 
 	return (0);
